@@ -19,7 +19,12 @@ impl Parser {
             let operand = self.unary()?;
             let span = start.merge(operand.span);
 
-            match operand.kind {
+            // `-5` is the literal -5; redundant parentheses around the literal do not change that
+            let mut literal = &operand;
+            while let ExprKind::Grouping(inner) = &literal.kind {
+                literal = inner;
+            }
+            match literal.kind {
                 ExprKind::Int(n) => {
                     return Ok(Expr::new(ExprKind::Int(n.wrapping_neg()), span));
                 }
